@@ -366,6 +366,16 @@ def inject(schema, document):
                         continue
                     new_args = args[:ai] + (replace(a, value=value_replace(a.value, vpath, lit)),) + args[ai + 1:]
                     yield "5.6.1", vsite + "|" + type(lit).__name__, rebuild(new_args)
+                if isinstance(vnode, ListV):
+                    # an ill-typed literal *after a variable* (and before one) inside a list literal
+                    for vt in ("Int", "String", "P"):
+                        for lit in LITERALS:
+                            for tag, items in (("after-variable", (Var("zzLv"), lit)), ("before-variable", (lit, Var("zzLv"))),
+                                               ("between-variables", (Var("zzLv"), lit, Var("zzLv")))):
+                                d2 = rebuild(args[:ai] + (replace(a, value=value_replace(a.value, vpath, ListV(items))),) + args[ai + 1:])
+                                d2 = with_var(d2, defidx, VarDef("zzLv", vt))
+                                if d2 is not None:
+                                    yield "5.6.1", vsite + "|list-item-" + tag + "|" + type(lit).__name__, d2
                 if isinstance(vnode, ObjV) and vnode.fields:
                     dup = replace(vnode, fields=vnode.fields + (vnode.fields[0],))
                     new_args = args[:ai] + (replace(a, value=value_replace(a.value, vpath, dup)),) + args[ai + 1:]
